@@ -235,7 +235,7 @@ Lemma forallb_heads0 : forall r0 R,
 Proof.
   intros r0 R. induction R as [|q R IH]; [reflexivity|].
   cbn [forallb]. intros H. apply andb_prop in H. destruct H as [H1 H2].
-  rewrite heads0_cons, forallb_app, (IH H2), andb_true_r.
+  rewrite heads0_cons, forallb_app. apply andb_true_intro. split; [|apply IH; exact H2].
   destruct q as [|[|j] q']; cbn [forallb]; try reflexivity.
   rewrite comparable_cons in H1. cbn in H1. rewrite H1. reflexivity.
 Qed.
@@ -246,7 +246,7 @@ Lemma forallb_shiftd : forall j r0 R,
 Proof.
   intros j r0 R. induction R as [|q R IH]; [reflexivity|].
   cbn [forallb]. intros H. apply andb_prop in H. destruct H as [H1 H2].
-  rewrite shiftd_cons, forallb_app, (IH H2), andb_true_r.
+  rewrite shiftd_cons, forallb_app. apply andb_true_intro. split; [|apply IH; exact H2].
   destruct q as [|[|j'] q']; cbn [forallb]; try reflexivity.
   rewrite comparable_cons in H1. rewrite comparable_cons. cbn [Nat.eqb] in H1. rewrite H1. reflexivity.
 Qed.
@@ -278,6 +278,288 @@ Proof.
   rewrite !fold_right_app. rewrite IH by (intros q Hq; apply Hne; right; assumption).
   destruct p as [|[|j] r0].
   - exfalso. apply (Hne []); [left; reflexivity | reflexivity].
-  - cbn. lia.
-  - cbn. lia.
+  - cbn. apply Nat.add_assoc.
+  - cbn. apply Nat.add_shuffle3.
+Qed.
+
+Definition carve (t : value) : Prop :=
+  forall P, pairwise_incomparable P = true -> sumcnt t P <= count t.
+Definition carve_kid (k : option value) : Prop :=
+  match k with Some c => carve c | None => True end.
+
+Lemma nil_in_pw : forall P, pairwise_incomparable P = true -> In [] P -> P = [[]].
+Proof.
+  intros P Hpw Hin. destruct P as [|p R]; [contradiction|].
+  cbn [pairwise_incomparable] in Hpw. apply andb_prop in Hpw. destruct Hpw as [H1 H2].
+  destruct p as [|i r].
+  - destruct R as [|q R']; [reflexivity|]. cbn in H1. discriminate.
+  - exfalso. destruct Hin as [Hin|Hin]; [discriminate|].
+    rewrite forallb_forall in H1. specialize (H1 [] Hin).
+    unfold comparable in H1. cbn in H1. discriminate.
+Qed.
+
+Lemma kids_sum_le : forall ks, Forall carve_kid ks ->
+  forall P, pairwise_incomparable P = true -> (forall p, In p P -> p <> []) ->
+  fold_right (fun p n => cntK ks p + n) 0 P <= wsum ks.
+Proof.
+  induction 1 as [|k ks Hk _ IH]; intros P Hpw Hne.
+  - clear Hpw Hne. assert (E : fold_right (fun p n => cntK [] p + n) 0 P = 0).
+    { induction P as [|p P IHP]; [reflexivity|]. cbn [fold_right]. rewrite IHP.
+      destruct p as [|[|j] r]; reflexivity. }
+    rewrite E. cbn. lia.
+  - rewrite sum_split by assumption. cbn [wsum fold_right]. fold (wsum ks).
+    apply Nat.add_le_mono.
+    + destruct k as [c|]; cbn [kcnt carve_kid] in *.
+      * apply (Hk (heads0 P)). apply pw_heads0. assumption.
+      * generalize (heads0 P). intros R. induction R as [|r R IHR]; cbn [fold_right kcnt]; [lia | cbn; exact IHR].
+    + apply IH; [apply pw_shiftd; assumption|].
+      intros p Hp. unfold shiftd in Hp. apply in_flat_map in Hp. destruct Hp as [q [_ Hq]].
+      destruct q as [|[|j] r]; cbn in Hq; try contradiction.
+      destruct Hq as [<-|[]]. discriminate.
+Qed.
+
+Lemma count_kids : forall t, S (wsum (kids t)) <= count t.
+Proof.
+  intros t. destruct t as [a|xs|xs|kvs|xs|xs]; cbn [kids count wsum fold_right]; try lia.
+  - apply le_n_S. induction xs as [|x r IH]; cbn; lia.
+  - apply le_n_S. induction xs as [|x r IH]; cbn; lia.
+  - apply le_n_S. induction kvs as [|[k v] r IH]; cbn [map fold_right fst snd]; [lia|].
+    destruct (private_key k); lia.
+  - apply le_n_S. induction xs as [|x r IH]; cbn; lia.
+  - apply le_n_S. induction xs as [|x r IH]; cbn; lia.
+Qed.
+
+Lemma carve_step : forall t, Forall carve_kid (kids t) -> carve t.
+Proof.
+  intros t Hk P Hpw.
+  destruct (in_dec (list_eq_dec Nat.eq_dec) [] P) as [Hin|Hnin].
+  - rewrite (nil_in_pw P Hpw Hin). unfold sumcnt, cnt. cbn. lia.
+  - assert (Hne : forall p, In p P -> p <> []) by (intros p Hp ->; contradiction).
+    assert (E : sumcnt t P = fold_right (fun p n => cntK (kids t) p + n) 0 P).
+    { clear Hpw Hnin. unfold sumcnt. induction P as [|p P IHP]; [reflexivity|].
+      cbn [fold_right]. rewrite IHP by (intros q Hq; apply Hne; right; assumption).
+      destruct p as [|i r]; [exfalso; apply (Hne []); [left; reflexivity | reflexivity]|].
+      rewrite cnt_cons. reflexivity. }
+    rewrite E. pose proof (kids_sum_le (kids t) Hk P Hpw Hne). pose proof (count_kids t). lia.
+Qed.
+
+Theorem carve_all : forall t, carve t.
+Proof.
+  assert (HA : forall a, carve (VAtom a)) by (intros a; apply carve_step; constructor).
+  apply value_ind2.
+  - exact HA.
+  - intros xs H. apply carve_step. cbn [kids]. induction H; constructor; assumption.
+  - intros xs H. apply carve_step. cbn [kids]. induction H; constructor; assumption.
+  - intros kvs H. apply carve_step. cbn [kids]. induction H as [|[k v] r Hkv _ IH]; constructor; [|assumption].
+    cbn [fst snd]. destruct (private_key k); [exact I | exact Hkv].
+  - intros xs. apply carve_step. cbn [kids]. induction xs; constructor; [apply HA | assumption].
+  - intros xs. apply carve_step. cbn [kids]. induction xs; constructor; [apply HA | assumption].
+Qed.
+
+(* ---------- P3: the operations of a valid structured delta ---------- *)
+Lemma is_prefix_app : forall p k, is_prefix p k = true -> exists r, k = (p ++ r)%list.
+Proof.
+  induction p as [|c p IH]; intros k H.
+  - exists k. reflexivity.
+  - destruct k as [|d k]; [discriminate|]. cbn [is_prefix] in H.
+    apply andb_prop in H. destruct H as [H1 H2]. apply N.eqb_eq in H1. subst d.
+    destruct (IH k H2) as [r ->]. exists r. reflexivity.
+Qed.
+
+Lemma path_key_facts : forall k, path_key_ok k = true ->
+  is_dedupe_key (KStr k) = false /\ key_skip (KStr k) = Some false.
+Proof.
+  intros k H. unfold path_key_ok in H. apply is_prefix_app in H. destruct H as [r ->].
+  split; reflexivity.
+Qed.
+
+Lemma cat_key_facts : forall k, cat_key_ok k = true ->
+  is_dedupe_key (KStr k) = false /\ key_skip (KStr k) = Some false.
+Proof.
+  intros k H. unfold cat_key_ok in H. apply andb_prop in H. destruct H as [H1 H2].
+  apply negb_true_iff in H1. split; [assumption|].
+  destruct (key_skip (KStr k)) as [[|]|]; try discriminate. reflexivity.
+Qed.
+
+Lemma map_len_plain : forall f k i d r,
+  is_dedupe_key k = false -> key_skip k = Some false ->
+  map_len f ((k, i, d) :: r) = ladd (f d) (map_len f r).
+Proof. intros f k i d r H1 H2. cbn [map_len]. rewrite H1, H2. reflexivity. Qed.
+
+Lemma map_len_skip : forall f k i d r,
+  is_dedupe_key k = false -> key_skip k = Some true ->
+  map_len f ((k, i, d) :: r) = ladd (LOk 0) (map_len f r).
+Proof. intros f k i d r H1 H2. cbn [map_len]. rewrite H1, H2. reflexivity. Qed.
+
+Lemma len_dvat : forall t p, lle (item_length (dvat t p)) (cnt t p).
+Proof.
+  intros t p. unfold dvat, cnt. destruct (resolve t p) as [v|].
+  - intros n H. apply item_length_le_count. assumption.
+  - cbn. apply lle_ok. lia.
+Qed.
+
+Definition ebudget (t1 t2 : value) (e : sentry) : nat :=
+  sumcnt t1 (entry_pos false e) + sumcnt t2 (entry_pos true e).
+
+Ltac ladd_inv :=
+  repeat match goal with
+         | H : ladd _ _ = LOk _ |- _ =>
+             apply ladd_ok in H; let x := fresh "x" in let y := fresh "y" in
+             destruct H as [x [y [? [? ?]]]]
+         | H : LOk _ = LOk _ |- _ => injection H as H
+         end.
+
+Lemma seq_len_members : forall t p ms,
+  lle (seq_len item_length (map (fun j => dvat t (p ++ [j])) ms)) (sumcnt t (map (fun j => p ++ [j]) ms)).
+Proof.
+  intros t p ms. induction ms as [|j ms IH]; cbn [map seq_len sumcnt fold_right].
+  - apply lle_ok; lia.
+  - apply lle_ladd; [apply len_dvat | apply IH].
+Qed.
+
+Lemma entry_bound : forall t1 t2 e, tc_entry_ok t1 t2 e = true ->
+  lle (item_length (snd (dv_of_entry t1 t2 e))) (ebudget t1 t2 e).
+Proof.
+  intros t1 t2 e G. destruct e as [key p1 p2 wnp wv|key p1 p2 wnp|s2 key p|s2 key p ms];
+    unfold ebudget; cbn [dv_of_entry snd entry_pos sumcnt fold_right].
+  - (* type change *)
+    cbn [tc_entry_ok] in G. unfold len_at in G.
+    pose proof (len_dvat t2 p2) as L.
+    intros n H. cbn [item_length app] in H.
+    rewrite (map_len_plain _ (KStr k_old_type)) in H by reflexivity.
+    rewrite (map_len_plain _ (KStr k_new_type)) in H by reflexivity.
+    destruct wnp, wv; cbn [app] in H;
+      repeat first [ rewrite (map_len_skip _ (KStr k_new_path)) in H by reflexivity
+                   | rewrite (map_len_plain _ (KStr k_new_value)) in H by reflexivity ];
+      cbn [map_len item_length] in H; ladd_inv; subst;
+      try (destruct (item_length (dvat t2 p2)) as [l|] eqn:E; [|discriminate];
+           match goal with H : LOk _ = LOk _ |- _ => injection H as <- end);
+      apply Nat.leb_le in G; lia.
+  - (* value change *)
+    pose proof (len_dvat t2 p2) as L.
+    intros n H. cbn [item_length] in H.
+    rewrite (map_len_plain _ (KStr k_new_value)) in H by reflexivity.
+    destruct wnp;
+      repeat rewrite (map_len_skip _ (KStr k_new_path)) in H by reflexivity;
+      cbn [map_len] in H; ladd_inv; subst;
+      match goal with H : item_length _ = LOk ?x |- _ => specialize (L x H) end; lia.
+  - pose proof (len_dvat (side t1 t2 s2) p) as L. destruct s2; cbn [Bool.eqb side sumcnt fold_right] in *;
+      (eapply lle_weaken; [exact L | lia]).
+  - pose proof (seq_len_members (side t1 t2 s2) p ms) as L. cbn [item_length].
+    destruct s2; cbn [Bool.eqb side] in *; (eapply lle_weaken; [exact L |]).
+    + unfold sumcnt. cbn [fold_right]. lia.
+    + unfold sumcnt. cbn [fold_right]. lia.
+Qed.
+
+Lemma entry_key_fst : forall t1 t2 e, fst (fst (dv_of_entry t1 t2 e)) = KStr (entry_key e).
+Proof. intros t1 t2 e. destruct e; reflexivity. Qed.
+
+Lemma entries_bound : forall t1 t2 es,
+  forallb (fun e => path_key_ok (entry_key e)) es = true ->
+  forallb (tc_entry_ok t1 t2) es = true ->
+  lle (map_len item_length (map (dv_of_entry t1 t2) es))
+      (sumcnt t1 (flat_map (entry_pos false) es) + sumcnt t2 (flat_map (entry_pos true) es)).
+Proof.
+  intros t1 t2 es. induction es as [|e es IH]; intros K G.
+  - cbn. apply lle_ok. lia.
+  - cbn [forallb] in K, G. apply andb_prop in K. destruct K as [K1 K2].
+    apply andb_prop in G. destruct G as [G1 G2].
+    cbn [map flat_map]. rewrite !sumcnt_app.
+    destruct (dv_of_entry t1 t2 e) as [[k i] d] eqn:E.
+    pose proof (entry_key_fst t1 t2 e) as Ek. rewrite E in Ek. cbn in Ek. subst k.
+    destruct (path_key_facts _ K1) as [D S].
+    rewrite map_len_plain by assumption.
+    pose proof (entry_bound t1 t2 e G1) as B. rewrite E in B. cbn [snd] in B. unfold ebudget in B.
+    eapply lle_weaken; [apply lle_ladd; [exact B | exact (IH K2 G2)] | lia].
+Qed.
+
+Lemma idx_len_bound : forall t p items seen,
+  lle (idx_len item_length seen (map (fun ii : nat * nat => (KOther, snd ii, dvat t (p ++ [fst ii]))) items))
+      (sumcnt t (map (fun ii : nat * nat => p ++ [fst ii]) items)).
+Proof.
+  intros t p items. induction items as [|[i id] items IH]; intros seen; cbn [map idx_len fst snd].
+  - apply lle_ok. cbn. lia.
+  - unfold sumcnt. cbn [fold_right]. fold (sumcnt t (map (fun ii : nat * nat => p ++ [fst ii]) items)).
+    destruct (existsb (Nat.eqb id) seen).
+    + eapply lle_weaken; [apply IH | lia].
+    + apply lle_ladd; [|apply IH]. unfold entry_len. cbn. apply len_dvat.
+Qed.
+
+Definition idx_entry_pos (e : pystr * ipath * list (nat * nat)) : list ipath :=
+  let '(_, p, items) := e in map (fun ii : nat * nat => p ++ [fst ii]) items.
+Definition idx_entry_dv (t : value) (e : pystr * ipath * list (nat * nat)) : dkey * nat * dv :=
+  let '(key, p, items) := e in
+  (KStr key, O, DMap (map (fun ii : nat * nat => (KOther, snd ii, dvat t (p ++ [fst ii]))) items)).
+
+Lemma idx_paths_bound : forall t es,
+  forallb (fun e : pystr * ipath * list (nat * nat) => path_key_ok (fst (fst e))) es = true ->
+  lle (paths_len item_length (map (idx_entry_dv t) es)) (sumcnt t (flat_map idx_entry_pos es)).
+Proof.
+  intros t es. induction es as [|[[key p] items] es IH]; intros K.
+  - cbn. apply lle_ok. lia.
+  - cbn [forallb fst] in K. apply andb_prop in K. destruct K as [K1 K2].
+    cbn [map flat_map idx_entry_dv idx_entry_pos paths_len]. rewrite sumcnt_app.
+    destruct (path_key_facts _ K1) as [-> ->].
+    apply lle_ladd; [|apply IH; assumption].
+    cbn [inner_len]. apply idx_len_bound.
+Qed.
+
+Lemma idx_all_maps : forall t es, forallb (fun e => is_map (snd e)) (map (idx_entry_dv t) es) = true.
+Proof. intros t es. induction es as [|[[key p] items] es IH]; [reflexivity|]. cbn. exact IH. Qed.
+
+Definition bbudget (t1 t2 : value) (b : sblock) : nat :=
+  sumcnt t1 (block_pos false b) + sumcnt t2 (block_pos true b).
+
+Lemma dv_of_block_idx : forall t1 t2 s2 es,
+  dv_of_block t1 t2 (BIdx s2 es) =
+  (KStr (if s2 then k_added_at else k_removed_at), O, DMap (map (idx_entry_dv (side t1 t2 s2)) es)).
+Proof. reflexivity. Qed.
+Lemma block_pos_idx : forall w s2 es,
+  block_pos w (BIdx s2 es) = if Bool.eqb s2 w then flat_map idx_entry_pos es else [].
+Proof. reflexivity. Qed.
+
+Lemma block_bound : forall t1 t2 b r,
+  block_keys_ok b = true ->
+  match b with BPlain _ es => forallb (tc_entry_ok t1 t2) es | BIdx _ _ => true end = true ->
+  forall x, lle (map_len item_length r) x ->
+  lle (map_len item_length (dv_of_block t1 t2 b :: r)) (bbudget t1 t2 b + x).
+Proof.
+  intros t1 t2 b r K G x Hr. destruct b as [cat es|s2 es]; unfold bbudget.
+  - cbn [dv_of_block block_pos]. cbn [block_keys_ok] in K. apply andb_prop in K. destruct K as [K1 K2].
+    destruct (cat_key_facts _ K1) as [D S]. rewrite map_len_plain by assumption.
+    apply lle_ladd; [|exact Hr]. cbn [item_length]. apply entries_bound; assumption.
+  - cbn [block_keys_ok] in K. rewrite dv_of_block_idx, !block_pos_idx.
+    assert (Hd : is_dedupe_key (KStr (if s2 then k_added_at else k_removed_at)) = true) by (destruct s2; reflexivity).
+    cbn [map_len]. rewrite Hd. apply lle_ladd; [|exact Hr].
+    unfold dedupe_len. rewrite idx_all_maps.
+    destruct s2; cbn [Bool.eqb side].
+    + change (sumcnt t1 []) with 0. cbn [Nat.add]. apply idx_paths_bound. assumption.
+    + change (sumcnt t2 []) with 0. rewrite Nat.add_0_r. apply idx_paths_bound. assumption.
+Qed.
+
+Definition block_guard (t1 t2 : value) (b : sblock) : bool :=
+  match b with BPlain _ es => forallb (tc_entry_ok t1 t2) es | BIdx _ _ => true end.
+
+Lemma delta_ops_bound : forall t1 t2 sd,
+  forallb block_keys_ok sd = true -> forallb (block_guard t1 t2) sd = true ->
+  lle (item_length (dv_of_sdelta t1 t2 sd)) (sumcnt t1 (positions false sd) + sumcnt t2 (positions true sd)).
+Proof.
+  intros t1 t2 sd. unfold dv_of_sdelta, positions. cbn [item_length].
+  induction sd as [|b sd IH]; intros K G.
+  - cbn. apply lle_ok. lia.
+  - cbn [forallb] in K, G. apply andb_prop in K. destruct K as [K1 K2].
+    apply andb_prop in G. destruct G as [G1 G2].
+    cbn [map flat_map]. rewrite !sumcnt_app.
+    eapply lle_weaken; [apply (block_bound t1 t2 b _ K1 G1 _ (IH K2 G2)) | unfold bbudget; lia].
+Qed.
+
+(* the operation count of a valid delta is at most the two item lengths *)
+Theorem delta_length_bound : forall t1 t2 sd n,
+  sd_valid sd = true -> tc_guard t1 t2 sd = true ->
+  item_length (dv_of_sdelta t1 t2 sd) = LOk n -> n <= count t1 + count t2.
+Proof.
+  intros t1 t2 sd n V G H. unfold sd_valid in V.
+  apply andb_prop in V. destruct V as [V V2]. apply andb_prop in V. destruct V as [K V1].
+  pose proof (delta_ops_bound t1 t2 sd K G n H) as B.
+  pose proof (carve_all t1 _ V1). pose proof (carve_all t2 _ V2). lia.
 Qed.
